@@ -25,6 +25,9 @@ func parseSysfsPCRs(data []byte) ([amountOfPCRs][]byte, error) {
 		if err != nil {
 			return pcrs, fmt.Errorf("unable to scan line '%s': %w", line, err)
 		}
+		if pcrIndex < 0 || pcrIndex >= amountOfPCRs {
+			return pcrs, fmt.Errorf("unexpected PCR index: %d", pcrIndex)
+		}
 		if lineNum != pcrIndex {
 			return pcrs, fmt.Errorf("unexpected PCRs order: expected:%d, received:%d", lineNum, pcrIndex)
 		}
